@@ -176,47 +176,47 @@ def _bbox_cases(q, base):
     }
     cases = []
 
-    def add(dim, rot, center, limits, fracs):
+    def add(rot, center, limits, fracs):
         cases.append({'kind': 'bbox', 'rot': rot, 'center': center, 'limits': limits, 'seeds': seeds, 'n2s': n2s,
                       'fracs': fracs})
-    for dim in (1, 2, 3):
-        ks = range(1, 16) if (dim == 2 or not q) else (1, 3, 4, 6, 11)
-        el = ref.elementary_rotations(dim, ks)
-        rots = [[f] for f in el]
-        if dim == 2:
-            rots += [[['rot', 0, 1, k], ['refl', 0]] for k in ((1, 5, 12) if q else range(1, 16))]
-        if dim == 3:
-            # products of two elementary factors
-            if q:
-                sub = [['perm', [1, 2, 0]], ['refl', 2], ['rot', 0, 1, 1], ['rot', 1, 2, 3], ['rot', 0, 2, 6]]
-                rots += [[a, b] for a in sub for b in sub if a != b]
-            else:
-                non_id = [f for f in el if f != ['I']]
-                sub = [f for f in non_id if f[0] != 'rot' or f[3] in (1, 3, 4, 6, 11)]
-                rots += [[a, b] for a in sub for b in sub if a != b]
-        if dim == 1:
-            lims = [[l] for l in L1]
-        elif dim == 2:
-            la = L1 if not q else L1[:7]
-            lims = [[a, b] for a in la for b in la]
-        else:
-            la = [[-1, 1], [0, 0], [-1e-4, 1e-4], [-0.5, 2]] + ([] if q else [[0, 3], [0, 5e-4]])
-            lims = [[a, b, c_] for a in la for b in la for c_ in la]
-        fr = {1: [0.0625, 0.5, 0.9375], 2: [0.0625, 0.5, 0.9375] if not q else [0.25, 0.75],
-              3: [0.25, 0.75] if not q else [0.5]}[dim]
-        if q:
-            # quick: every rotation with a covering set of (centre, limits) pairs, every limits tuple with a covering
-            # set of rotations (full product in thorough)
-            cl = [(c, l) for c in centers[dim] for l in lims]
-            for i, rot in enumerate(rots):
-                for j in range(i % 13, len(cl), 13):
-                    c, l = cl[j]
-                    add(dim, rot, c, l, fr)
-        else:
-            for rot in rots:
-                for c in centers[dim]:
-                    for l in lims:
-                        add(dim, rot, c, l, fr)
+
+    def cover(rots, cl, stride, fracs):
+        """Covering design: rotation i meets every stride-th (centre, limits) pair starting at i mod stride, so every
+        rotation, every centre and every limits tuple occurs, and every pair occurs with ~1/stride of the rotations."""
+        for i, rot in enumerate(rots):
+            for j in range(i % stride, len(cl), stride):
+                add(rot, cl[j][0], cl[j][1], fracs)
+
+    # dim 1: full product
+    for rot in [[['I']], [['refl', 0]]]:
+        for c in centers[1]:
+            for l in L1:
+                add(rot, c, [l], [0.0625, 0.5, 0.9375])
+    # dim 2
+    el2 = [[f] for f in ref.elementary_rotations(2, range(1, 16))]
+    el2 += [[['rot', 0, 1, k], ['refl', 0]] for k in ((1, 5, 12) if q else range(1, 16))]
+    la = L1[:7] if q else L1
+    cl2 = [(c, [a, b]) for c in centers[2] for a in la for b in la]
+    cover(el2, cl2, 13 if q else 1, [0.25, 0.75] if q else [0.0625, 0.5, 0.9375])
+    # dim 3
+    ks3 = (1, 3, 4, 6, 11) if q else range(1, 16)
+    el3 = ref.elementary_rotations(3, ks3)
+    if q:
+        sub = [['perm', [1, 2, 0]], ['refl', 2], ['rot', 0, 1, 1], ['rot', 1, 2, 3], ['rot', 0, 2, 6]]
+    else:
+        sub = [f for f in el3 if f != ['I'] and (f[0] != 'rot' or f[3] in (1, 3, 4, 6, 11))]
+    prod3 = [[a, b] for a in sub for b in sub if a != b]
+    l4 = [[-1, 1], [0, 0], [-1e-4, 1e-4], [-0.5, 2]]
+    cl3 = [(c, [a, b, c_]) for c in centers[3] for a in l4 for b in l4 for c_ in l4]
+    if q:
+        cover([[f] for f in el3] + prod3, cl3, 13, [0.5])
+    else:
+        cover([[f] for f in el3], cl3, 1, [0.25, 0.75])          # full product with the elementary rotations
+        cover(prod3, cl3, 11, [0.25, 0.75])                        # products of two: covering design
+        l6 = l4 + [[0, 3], [0, 5e-4]]
+        extra = [(c, [a, b, c_]) for c in centers[3] for a in l6 for b in l6 for c_ in l6
+                 if any(x in ([0, 3], [0, 5e-4]) for x in (a, b, c_))]
+        cover([[f] for f in el3], extra, 7, [0.5])
     return cases
 
 
@@ -357,22 +357,25 @@ def _ls_cases(q):
     cases = []
     geoms = [([0.0], [1.0]), ([0.5], [-1.0]), ([1.0, -2.0], [0.6, 0.8])]
     if not q:
-        geoms += [([-3.0], [1.0]), ([0.25, 0.5, -1.0], [0.0, 0.0, -1.0]), ([0.0, 0.0], [-0.7071067811865476, 0.7071067811865476])]
+        geoms += [([-3.0], [1.0]), ([0.25, 0.5, -1.0], [0.0, 0.0, -1.0]),
+                  ([0.0, 0.0], [-0.7071067811865476, 0.7071067811865476])]
     for gi, (start, vd) in enumerate(geoms):
-        for K in (0, 1, 2, 3) if q else (0, 1, 2, 3, 4, 5):
-            for rep_lim in (0, 1, 2, 3) if q else (0, 1, 2, 3, 4, 5):
-                for eta in (1.0, 0.5) if q else (2.0, 1.0, 0.5, 0.25):
-                    answers = 3
-                    if not q:
-                        # keep each tree below ~2e5 executions: the deepest configurations with two answers only
-                        if K * (rep_lim + 2) > 16:
-                            answers = 2
-                        if K * (rep_lim + 2) > 24:
-                            continue
-                        if gi >= 3 and (K > 3 or rep_lim > 3):
-                            continue
+        for eta in (1.0, 0.5) if q else (2.0, 1.0, 0.5, 0.25):
+            if q:
+                kmax = rmax = 4
+            elif gi == 0 and eta == 1.0:
+                kmax = rmax = 8
+            else:
+                kmax = rmax = 6
+            for K in range(0, kmax + 1):
+                for rep_lim in range(0, rmax + 1):
                     cases.append({'kind': 'ls_tree', 'K': K, 'eta': eta, 'rep_lim': rep_lim, 'start': start, 'vd': vd,
-                                  'answers': answers})
+                                  'answers': 3})
+    if not q:
+        # the library defaults K=10 with small repetition limits (two answers: below / above)
+        for rep_lim in (0, 1, 2, 3):
+            cases.append({'kind': 'ls_tree', 'K': 10, 'eta': 1.0, 'rep_lim': rep_lim, 'start': [0.0], 'vd': [1.0],
+                          'answers': 2})
     return cases
 
 
@@ -478,15 +481,16 @@ def _build_cases(q):
     two_d = [([0.5, -1.0], [[1.0, 0.0], [0.0, 2.0]]), ([0.0, 0.0], [[2.0, 1.0], [1.0, 2.0]]),
              ([1.0, 2.0], [[0.0, 0.0], [0.0, 0.0]])]
     for x0, h in one_d:
-        for K in (1, 2, 3) if q else (1, 2, 3, 4):
-            for rep_lim in (0, 1, 2) if q else (0, 1, 2, 3):
+        for K in (1, 2, 3) if q else (1, 2, 3, 4, 5):
+            for rep_lim in (0, 1, 2) if q else (0, 1, 2, 3, 4):
                 for eta in (1.0, 0.5):
-                    if not q and K * (rep_lim + 2) > 12:
+                    if K * (rep_lim + 2) > 20:
                         continue
+                    three = K * (rep_lim + 2) <= (6 if q else 12)
                     cases.append({'kind': 'build_tree', 'x_min': x0, 'hess': h, 'K': K, 'eta': eta, 'rep_lim': rep_lim,
-                                  'answers': 3 if K * (rep_lim + 2) <= 6 else 2})
+                                  'answers': 3 if three else 2})
     for x0, h in two_d:
-        for K, rep_lim in ((1, 0), (1, 1), (2, 0)) if q else ((1, 0), (1, 1), (2, 0), (1, 2), (2, 1)):
+        for K, rep_lim in ((1, 0), (1, 1), (2, 0)) if q else ((1, 0), (1, 1), (2, 0), (1, 2), (2, 1), (2, 2), (3, 1), (3, 2)):
             for eta in (1.0,) if q else (1.0, 0.5):
                 cases.append({'kind': 'build_tree', 'x_min': x0, 'hess': h, 'K': K, 'eta': eta, 'rep_lim': rep_lim,
                               'answers': 2})
@@ -1022,8 +1026,10 @@ def _e2e_cases(q, base):
     for prior, axes, obs in (('U1', ax1, [0.5]), ('H2', ax2, [0.0, 0.5])) + (() if q else (('N1', ax1, [-1.0]), ('UN2', ax2, [1.0, 0.0]))):
         for seed in [base + k for k in range(2 if q else 5)]:
             for fit in (False, True):
-                for (K, eta, rep_lim, ef, er, ec) in ((3, 0.5, 5, 0.75, 1.0, 0.75),) if q else \
+                for (K, eta, rep_lim, ef, er, ec) in ((3, 0.5, 5, 0.75, 1.0, 0.75), (2, 1.0, 1, 1e-9, 0.5, 2.0)) if q else \
                         ((3, 0.5, 5, 0.75, 1.0, 0.75), (2, 1.0, 1, 1e-9, 0.5, 2.0), (4, 0.25, 8, 1.0, 0.25, 0.25)):
+                    if q and fit and ef < 0.1:
+                        continue
                     cases.append({'kind': 'e2e', 'prior': prior, 'observed': obs, 'n1': 3 if q else 4, 'seed': seed,
                                   'fit_models': fit, 'K': K, 'eta': eta, 'rep_lim': rep_lim, 'eps_filter': ef,
                                   'eps_region': er, 'eps_cutoff': ec, 'np_seed': base + 5, 'n2': 2, 'axes': axes})
@@ -1094,4 +1100,41 @@ def run(ctx):
     section('posterior', s_post)
     section('pipeline', s_pipe)
     ctx.extra['section_wall_s'] = walls
-    ctx.rule = 'todo'
+    ctx.extra['explanation'] = (
+        'linesearch/build: evaluations = executions of the real line_search / RegionConstructor.build, one per distinct '
+        'answer function of the objective-as-environment (complete trees, no deviation bound, counters executions / '
+        'choice_points); bbox/posterior/pipeline/e2e: evaluations = individual points judged (test points, drawn '
+        'samples, grid points)')
+    ctx.rule = (
+        'bbox: one case per (dim<=3, orthonormal rotation descriptor, centre, limits tuple); 1-D and (thorough) 2-D and '
+        '3-D-elementary are full products, the rest a covering design (every rotation x every k-th (centre, limits) pair, '
+        'offset by rotation index); inside each case all seeds x n2 sample points and all harness-built test points are '
+        'judged; distinct = distinct points. linesearch/build: one case per (K, eta, rep_lim, start, direction | x_min, '
+        'Hessian), the complete tree of answer functions (below/above/at-threshold per probed offset, memoised) explored '
+        'by stateless DFS; distinct = distinct (result, probe log) outcomes. posterior: every selection of 1-3 '
+        '(region, objective) pairs x prior x cut-off x surrogate_used x {pdf grid, sample, worker}; pipeline: every '
+        'selection of 1-3 hand-solved problems x line-search configuration x (eps_filter, eps_region, eps_cutoff) x '
+        'fit_models; e2e: real ROMC runs per (prior, seed, fit_models, configuration). non-trivial = the case ran to a '
+        'verdict (local-surrogate regressions further than 1e-7 from the true objective are counted trivial)')
+    ctx.assumptions += [
+        'rotations are orthonormal (products of permutations, reflections, planar rotations by k*pi/8); |centre| <= 640.25; '
+        'widths >= 1e-3 after the documented widening of limits closer than 1e-3 (by 5e-4 on each side); widths within '
+        '10% of the 1e-3 widening boundary are not in the alphabet',
+        'box test points are placed at a margin of 1e-9*scale (scale = max(1, |centre|, |limits|)) inside / outside every '
+        'face; points exactly on a face are not judged (measure-zero boundary); pdf compared with rtol 1e-12, outside '
+        'points must give exactly 0',
+        'line search: dyadic eta and K <= 10 so that all offsets are exact; the objective answers only through '
+        'below / above / exactly-at the threshold; oracle: result > 0; if the start is below the threshold every probe at '
+        'an offset in [0, result) was below and the result is a probed below-offset or (nothing beyond the start was '
+        'below and result <= eta: the documented resolution fallback); half-open interval on purpose (rep_lim = 0 '
+        'returns the offset of the first failed probe)',
+        'posterior: prior density reference = textbook uniform / normal formulas (product of conditionals), rtol 1e-12; '
+        'objectives max-norm / l1 / quadratic / constant on dyadic grids so that d == cut-off happens exactly: counted in '
+        'the density (<=), weight zero (<); grid points within 1e-9*scale of a region face accept either count',
+        'pipeline / e2e: ROMC.sample and fit_local_surrogate draw from the global numpy generator, which the harness '
+        'seeds; with local surrogates points whose true distance is within 1e-6 of the cut-off accept either indicator '
+        'and densities / weights are compared with rtol 1e-9; acceptance = solved and f_min < eps_filter (f_min == '
+        'eps_filter not in the alphabet)',
+        'parallelize=True (multiprocessing.Pool inside the posterior) is not run; its per-region worker is called directly',
+        'the BO / GP surrogate path (solve_bo, use_surrogate=True) is not explored',
+    ]
